@@ -29,7 +29,7 @@ fn langs_in_use(req: &oracle::Required, cx: &Ctx) -> Option<BTreeSet<u8>> {
 }
 
 pub fn eval_c09(sc: &Scenario, h: &History, _signed: &Signeds, out: &mut Outcome) {
-    let cx = Ctx { w: &sc.world, k: &sc.knobs };
+    let cx = Ctx { w: &sc.world, k: &sc.knobs, undeclared_ref_scripts: Default::default() };
     for b in &h.built {
         if !b.full {
             continue;
@@ -163,7 +163,7 @@ fn ledger_cred_rank(is_script: bool) -> u8 {
 }
 
 pub fn eval_c10(sc: &Scenario, h: &History, _signed: &Signeds, out: &mut Outcome) {
-    let cx = Ctx { w: &sc.world, k: &sc.knobs };
+    let cx = Ctx { w: &sc.world, k: &sc.knobs, undeclared_ref_scripts: Default::default() };
     for b in &h.built {
         if !b.full {
             continue;
@@ -333,7 +333,7 @@ fn short(p: &Purpose) -> String {
 pub const VKEY_WITNESS_SIZE: i64 = 101;
 
 pub fn eval_c18(sc: &Scenario, h: &History, signed: &Signeds, out: &mut Outcome) {
-    let cx = Ctx { w: &sc.world, k: &sc.knobs };
+    let cx = Ctx { w: &sc.world, k: &sc.knobs, undeclared_ref_scripts: Default::default() };
     for (bi, b) in h.built.iter().enumerate() {
         if !b.full {
             continue;
@@ -486,7 +486,7 @@ fn out_bytes(o: &Option<csl::TransactionOutput>) -> Option<Vec<u8>> {
 }
 
 pub fn eval_c19(sc: &Scenario, h: &History, _signed: &Signeds, out: &mut Outcome) {
-    let cx = Ctx { w: &sc.world, k: &sc.knobs };
+    let cx = Ctx { w: &sc.world, k: &sc.knobs, undeclared_ref_scripts: Default::default() };
     // failed attempts leave nothing behind
     for e in &h.coll_events {
         if e.res.is_ok() {
@@ -597,7 +597,7 @@ pub fn eval_c19(sc: &Scenario, h: &History, _signed: &Signeds, out: &mut Outcome
 // ------------------------------------------------------------------ C20
 
 pub fn eval_c20(sc: &Scenario, h: &History, _signed: &Signeds, out: &mut Outcome) {
-    let cx = Ctx { w: &sc.world, k: &sc.knobs };
+    let cx = Ctx { w: &sc.world, k: &sc.knobs, undeclared_ref_scripts: Default::default() };
     let k = &sc.knobs;
     let mut bodies: Vec<(usize, Vec<u8>, csl::TransactionBody, csl::TransactionBuilder)> = vec![];
     for b in &h.built {
